@@ -2,3 +2,5 @@
 size_t verif_ptrheap_n(struct ptrheap * H){ return (H->nelems); }
 void * verif_ptrheap_at(struct ptrheap * H, size_t i){ return (*ptrlist_get(H->elems, i)); }
 size_t verif_ptrheap_arraysize(struct ptrheap * H){ return (ptrlist_getsize(H->elems)); }
+/* C13: put p at the end of the array without sifting or notification (restores a snapshot; the harness records the position itself). */
+int verif_ptrheap_place(struct ptrheap * H, void * p){ if (ptrlist_append(H->elems, &p, 1)) return (-1); H->nelems += 1; return (0); }
